@@ -727,9 +727,15 @@ impl Transaction {
             });
         }
 
-        self.propagate_governance().await?;
-        self.check_reference_closure().await?;
-        self.check_concept_key_identity().await?;
+        // A refusal found here is found before anything is written, so the
+        // statement's shells are still the only durable thing it produced.
+        // They have to go the way a planning failure's shells do: a shell
+        // that survives a refused statement is a pending row the statement
+        // left behind.
+        if let Err(err) = self.check_before_write().await {
+            self.discard_shells().await;
+            return Err(err);
+        }
 
         // Nothing this transaction touched keeps its shell state, and the
         // version rule is applied here so that a clause touching one element
@@ -822,6 +828,13 @@ impl Transaction {
     /// were never visible.
     pub async fn abort(mut self) {
         self.discard_shells().await;
+    }
+
+    /// The commit-time checks that can still refuse the statement as a whole.
+    async fn check_before_write(&mut self) -> Result<(), KipError> {
+        self.propagate_governance().await?;
+        self.check_reference_closure().await?;
+        self.check_concept_key_identity().await
     }
 
     /// Writes one staged row, stamping the engine truth the transaction owns.
